@@ -160,7 +160,7 @@ def to_harness_histories(hs, start_id=1, defaults=None):
             else:
                 ops.append(op)
         rec = {"id": start_id + i, "fee": cfg.get("fee", 0), "mpp": cfg.get("mpp", False),
-               "policy": cfg.get("policy", "pct1"), "limits": cfg.get("limits", {}), "probe": cfg.get("probe", "all"), "malformed": cfg.get("malformed", 0),
+               "policy": cfg.get("policy", "pct1"), "limits": cfg.get("limits", {}), "probe": cfg.get("probe", "all"), "malformed": cfg.get("malformed", 0), "http": cfg.get("http", False),
                "ops": ops}
         res.append(rec)
     return res
